@@ -19,24 +19,8 @@ def sh(cmd, cwd=None, timeout=3600):
     return p.returncode, p.stdout
 
 
-def main():
-    prop, sdir, wt = sys.argv[1], sys.argv[2].rstrip("/"), sys.argv[3]
-    checks = [prop]
-    tier = "quick"
-    name = None
-    for i, a in enumerate(sys.argv):
-        if a == "--checks":
-            checks = sys.argv[i + 1].split(",")
-        if a == "--tier":
-            tier = sys.argv[i + 1]
-        if a == "--name":
-            name = sys.argv[i + 1]
-    name = name or f"{prop}-{os.path.basename(sdir)}"
-    patch = os.path.join(sdir, "patch.diff")
-    demos = [f for f in glob.glob(os.path.join(sdir, "*.rs"))]
-    meta = json.load(open(os.path.join(sdir, "meta.json")))
+def confirm(wt, patch, demos):
     obs = {}
-    # 1. confirm in the worktree
     sh("git checkout -- . && git clean -fdq -- tests src", cwd=wt)
     rc, out = sh(["git", "apply", patch], cwd=wt)
     if rc != 0:
@@ -45,11 +29,9 @@ def main():
     for d in demos:
         shutil.copy(d, os.path.join(wt, "tests", os.path.basename(d)))
     demo_names = [os.path.basename(d)[:-3] for d in demos]
-    rc, out = sh("cargo test --offline --no-fail-fast 2>&1 | grep -E '^test result|FAILED|failed' | head -40", cwd=wt)
-    obs["suite_with_change"] = out.strip().splitlines()
-    # existing suite = everything except the demo targets
     demo_fail, other_fail = False, False
     rc, full = sh("cargo test --offline --no-fail-fast 2>&1", cwd=wt)
+    obs["suite_with_change"] = [l for l in full.splitlines() if l.startswith("test result")]
     cur = None
     for line in full.splitlines():
         m = re.search(r"Running (?:unittests )?(\S+)", line)
@@ -74,17 +56,50 @@ def main():
             obs["demo_without_change_output"] = out[-600:]
     obs["demo_passes_without_change"] = ok_without
     sh("git checkout -- . && git clean -fdq -- tests src", cwd=wt)
-    confirmed = obs["existing_tests_pass_with_change"] and demo_fail and ok_without
-    obs["confirmed"] = confirmed
-    print(json.dumps(obs, indent=1))
+    obs["confirmed"] = obs["existing_tests_pass_with_change"] and demo_fail and ok_without
+    return obs, obs["confirmed"]
+
+
+def main():
+    prop, sdir, wt = sys.argv[1], sys.argv[2].rstrip("/"), sys.argv[3]
+    checks = [prop]
+    tier = "quick"
+    name = None
+    for i, a in enumerate(sys.argv):
+        if a == "--checks":
+            checks = sys.argv[i + 1].split(",")
+        if a == "--tier":
+            tier = sys.argv[i + 1]
+        if a == "--name":
+            name = sys.argv[i + 1]
+    name = name or f"{prop}-{os.path.basename(sdir)}"
+    patch = os.path.join(sdir, "patch.diff")
+    demos = [f for f in glob.glob(os.path.join(sdir, "*.rs"))]
+    meta = json.load(open(os.path.join(sdir, "meta.json")))
+    obs = {}
+    skip_confirm = "--skip-confirm" in sys.argv
+    if skip_confirm:
+        prev = os.path.join(ROOT, "seeded", name, "meta.json")
+        pm = json.load(open(prev)) if os.path.exists(prev) else {}
+        obs = pm.get("confirmation", {})
+        confirmed = obs.get("confirmed", False)
+        prev_checks = pm.get("checks_run", {})
+    else:
+        prev_checks = {}
+        obs, confirmed = confirm(wt, patch, demos)
+        print(json.dumps(obs, indent=1))
     # 2. run the checks against it
-    detected = {}
+    detected = dict(prev_checks)
     if confirmed:
         rc, out = sh(["git", "-C", "/repo", "status", "--porcelain"])
         if out.strip():
             print("/repo is not clean; refusing to apply")
             sys.exit(1)
         rc, out = sh(["git", "-C", "/repo", "apply", patch])
+        if rc != 0:
+            print("patch does not apply to the current /repo HEAD (the code it changes has been fixed since):", out.strip()[:300])
+            meta["note"] = "patch no longer applies to the current HEAD: " + out.strip()[:200]
+            checks = []
         try:
             for c in checks:
                 rc, out = sh([sys.executable, os.path.join(ROOT, "check.py"), c, "--tier", tier], cwd=ROOT, timeout=7200)
